@@ -17,7 +17,9 @@ META = {
                   "the same bindings (names mangled), and is one compile() accepts when the Hy pattern is well formed; a "
                   "match form evaluates to the result of the first case whose pattern matches and whose guard holds -- "
                   "guards compiling to statements are lifted into functions that the right case calls -- and to None "
-                  "otherwise. Three defects the first version refuted (class-pattern keywords not mangled, the string "
+                  "otherwise; a pattern compile_pattern rejects (`p :as _`, (| ...) with fewer than two alternatives, "
+                  "(. ...) without an attribute) is exactly one whose emitted node compile() would reject. "
+                  "Three defects the first version refuted (class-pattern keywords not mangled, the string "
                   "literals \"None\"/\"True\"/\"False\", #* _) were repaired in /repo (7ce654c, 05b9a7b, 24b6ab7); their "
                   "reproducers run first from corpus/C08.",
     "level_note": "Trusted: Coq kernel; translator/ops_match.py (templates); Ops/PyMatch.v, the hand-written combinator "
@@ -99,7 +101,8 @@ def pat_hy(p):
     if t == "or":
         return "(| %s)" % " ".join(pat_hy(q) for q in p[1])
     if t == "value":
-        return ".".join(p[1])
+        # a.b.c reads as (. a b c); fewer than two symbols can only be written in the long form
+        return ".".join(p[1]) if len(p[1]) >= 2 else "(. %s)" % " ".join(p[1])
     if t == "seq":
         inner = " ".join(pat_hy(q) for q in p[2])
         return "[%s]" % inner if p[1] == "list" else "#(%s)" % inner
@@ -387,8 +390,10 @@ def run(chk):
     chk.assumptions = [
         "the equivalent Python pattern of a Hy pattern: same kind, sub-patterns in order, names mangled (captures, :as, #*, "
         "#**, dotted value and class names, class keyword attributes); (| p q) is p | q; :name is hy.models.Keyword(\"name\")",
-        "(| p) with fewer than two alternatives, repeated captures, irrefutable non-final cases are rejected by Python in "
-        "both renderings and are compared as errors of the same kind",
+        "repeated captures and irrefutable non-final cases are rejected by Python in both renderings and are compared as "
+        "errors of the same kind; (| ...) with fewer than two alternatives, (. ...) with fewer than two symbols and "
+        "`p :as _` have no Python rendering: they must be HySyntaxError (commits 61b21a1, d2a83e6, 8cfcf87), judged in a "
+        "phase of their own",
         "subjects: ints, strings, bytes, floats, None/True/False, lists, tuples, dicts, Keyword objects, instances of a class "
         "with __match_args__ and of one without",
         "a Hy match and the Python match statement agree if both return the same value, or both raise the same exception type "
